@@ -25,4 +25,24 @@ TEXT = {
   "level": "Exploration: thousands of generated pages per run; every element and attribute of the distilled tree is scanned for script/style elements, on* handlers, id/class/style/data-* attributes (placeholder wrapper markers excepted).",
   "note": _T, "ref": "DESIGN.md 4/C05",
  },
+ "C06": {
+  "technique": "property-based testing (rapid): URL references of every form built together with their expected resolution (by construction, no net/url); oracle = equality of every URL attribute and ContentImages entry with the constructed expectation",
+  "level": "Exploration: thousands of generated pages per run with a page URL assembled from parts; every href/src/srcset candidate/poster outside placeholders and every ContentImages entry is traced to its origin by a unique token and compared with the expected absolute or pass-through value.",
+  "note": _T + " <base href> is never generated.", "ref": "DESIGN.md 4/C06",
+ },
+ "C07": {
+  "technique": "property-based testing (rapid): generated nested list/quote/pre structures and data tables; oracle = per retained token, equal nestable-ancestor chain in parsed source and distilled HTML; equal row/cell counts per retained data table",
+  "level": "Exploration: thousands of generated nested structures per run, including partially retained and malformed lists; chains are computed independently on both trees.",
+  "note": _T, "ref": "DESIGN.md 4/C07",
+ },
+ "C08": {
+  "technique": "property-based testing (rapid): generated interleavings of retained/dropped text with media of every kind; oracle = media retained iff nearest preceding visible token retained, at most one promoted image/figure",
+  "level": "Exploration: thousands of generated interleavings per run; the (expected, got) matrix per media kind is recorded in the evidence so that every kind is seen on both sides.",
+  "note": _T + " Pages carry no title.", "ref": "DESIGN.md 4/C08",
+ },
+ "C09": {
+  "technique": "property-based testing (rapid): generated pages; oracle = agreement relations between the views of one Result (word sequences, ordered image subsequence, word count)",
+  "level": "Exploration: thousands of generated pages per run; the three agreement relations are evaluated on every result (word count only in its stated sub-domain).",
+  "note": _T + " Placeholder content is excluded from the text/HTML comparison.", "ref": "DESIGN.md 4/C09",
+ },
 }
